@@ -405,29 +405,50 @@ unsafe fn run_case_inner(case: &Case, st: &mut Stats) -> CaseResult {
                 counts += 1;
                 let w = new_wmc_params_poly();
                 let mut nat = WmcParams::<Polynomial<RealSemiring>>::default();
+                // one variable (chosen by the selector) gets a long polynomial, up to the 32-coefficient limit
+                let long_var = (sel(s, 0, 2) as usize) % n;
+                let long_len = [2usize, 5, 17, 31, 32, 32][(sel(s, 1, 2) as usize) % 6];
                 for v in 0..n {
-                    let hi = [(sel(s, v, 0) % 3) as f64, (sel(s, v, 1) % 3) as f64 - 1.0];
-                    let lo = [1.0 - hi[0], -hi[1]];
-                    wmc_param_poly_set_weight(w, v as u64, lo.as_ptr(), 2, hi.as_ptr(), 2);
-                    let mk = |c: [f64; 2]| {
+                    let len = if v == long_var { long_len } else { 2 };
+                    let mut hi = vec![0f64; len];
+                    hi[0] = (sel(s, v, 0) % 3) as f64;
+                    hi[1] = (sel(s, v, 1) % 3) as f64 - 1.0;
+                    if len > 2 {
+                        hi[len - 1] = 1.0 + (sel(s, v, 2) % 3) as f64;
+                        hi[len / 2] = 2.0;
+                    }
+                    let mut lo: Vec<f64> = hi.iter().map(|c| -c).collect();
+                    lo[0] = 1.0 - hi[0];
+                    wmc_param_poly_set_weight(w, v as u64, lo.as_ptr(), lo.len(), hi.as_ptr(), hi.len());
+                    let mk = |c: &Vec<f64>| {
                         let mut p = Polynomial::<RealSemiring>::zero();
-                        p.coefficients[0] = RealSemiring(c[0]);
-                        p.coefficients[1] = RealSemiring(c[1]);
-                        p.len = 2;
+                        for (i, x) in c.iter().enumerate() {
+                            p.coefficients[i] = RealSemiring(*x);
+                        }
+                        p.len = c.len();
                         p
                     };
-                    nat.set_weight(VarLabel::new_usize(v), mk(lo), mk(hi));
+                    nat.set_weight(VarLabel::new_usize(v), mk(&lo), mk(&hi));
                     let back = wmc_param_poly_var_weight(w, v as u64);
-                    let mut buf = [0f64; 4];
-                    let k = polynomial_get_coeffs(back.high, buf.as_mut_ptr(), 4);
+                    let mut buf = [0f64; 40];
+                    let k = polynomial_get_coeffs(back.high, buf.as_mut_ptr(), 40);
                     ensure!(
-                        k == 2 && buf[0] == hi[0] && buf[1] == hi[1] && polynomial_len(back.low) == 2,
+                        k == len && buf[..k] == hi[..] && polynomial_len(back.low) == len,
                         "C18/poly-var-weight",
                         "wmc_param_poly_var_weight({}) high reads back {:?} (len {}), set {:?}",
                         v,
-                        &buf[..k.min(4)],
+                        &buf[..k.min(40)],
                         k,
                         hi
+                    );
+                    let kl = polynomial_get_coeffs(back.low, buf.as_mut_ptr(), 40);
+                    ensure!(
+                        kl == len && buf[..kl] == lo[..],
+                        "C18/poly-var-weight",
+                        "wmc_param_poly_var_weight({}) low reads back {:?}, set {:?}",
+                        v,
+                        &buf[..kl.min(40)],
+                        lo
                     );
                     destroy_polynomial(back.low);
                     destroy_polynomial(back.high);
@@ -446,12 +467,24 @@ unsafe fn run_case_inner(case: &Case, st: &mut Stats) -> CaseResult {
                     nv.coefficients.iter().map(|c| c.0).collect::<Vec<_>>(),
                     nv.len
                 );
-                // new_polynomial round trip
-                let np2 = new_polynomial(buf.as_ptr(), k);
-                let mut buf2 = [0f64; 32];
-                let k2 = polynomial_get_coeffs(np2, buf2.as_mut_ptr(), 32);
-                ensure!(k2 == k && buf2[..k] == buf[..k], "C18/new-polynomial", "new_polynomial round trip changed coefficients");
-                destroy_polynomial(np2);
+                // new_polynomial round trip, including inputs longer than the 32-coefficient limit (documented: truncated)
+                for len in [0usize, 1, k.max(1), 31, 32, 40] {
+                    let src: Vec<f64> = (0..len).map(|j| 1.0 + ((j * 7 + sel(s, j, 0) as usize) % 5) as f64).collect();
+                    let np2 = new_polynomial(src.as_ptr(), len);
+                    let mut buf2 = [0f64; 40];
+                    let k2 = polynomial_get_coeffs(np2, buf2.as_mut_ptr(), 40);
+                    let want_len = len.min(32);
+                    ensure!(
+                        k2 == want_len && polynomial_len(np2) == want_len && buf2[..k2] == src[..want_len],
+                        "C18/new-polynomial",
+                        "new_polynomial of {} coefficients {:?} reads back as {:?} (len {})",
+                        len,
+                        src,
+                        &buf2[..k2.min(40)],
+                        k2
+                    );
+                    destroy_polynomial(np2);
+                }
                 destroy_polynomial(r);
                 destroy_wmc_params_poly(w);
                 None
@@ -673,6 +706,7 @@ pub fn property() -> Property {
     Property {
         id: "C18",
         subs: vec![sub::<Abi>()],
+        fuzz: vec![],
         assumptions: vec![
             "the exported symbols are linked from the rlib (feature ffi) and called through extern \"C\" declarations mirroring the signatures in src/ffi; handles are never freed twice; leaked result boxes are ignored",
             "bdd_topvar of a constant is 0 (the library's documented TODO), so topvar is compared with the native var_safe() mapped the same way",
